@@ -1,7 +1,8 @@
 """C16 No peer-supplied input can crash an endpoint — E-TAINT partial-operation rule + panic-site inventory (tarpc's own code)."""
 from engine.facts import CannotDecide, callee_is, path_matches, strip_generics, is_tracing
 from engine.prov import const_int
-from .common import norm_path, in_module, MINLIKE
+from .common import norm_path, in_module, MINLIKE, Table
+from engine.facts import ty_head
 
 EXTRA_CONFIGS = ('default', 'tokio1', 'serde1', 'serde-transport')   # feature configurations re-analysed in the thorough tier
 META = {
@@ -47,6 +48,27 @@ ADAPTORS = ('Result::err', 'Result::ok', 'Result::as_ref', 'Result::as_mut', 'Op
             'String::into_boxed_str', 'Vec::into_boxed_slice', 'slice::to_vec', 'slice::iter', 'Vec::iter', 'mem::take', 'mem::replace', 'Box::new', 'Arc::new', 'Rc::new', 'Cow::into_owned', 'Cow::as_ref')
 GENERIC_PASS = True
 SANITISERS = MINLIKE + ('Duration::min',)
+
+
+def zeroable_divisor(F, P, tables, term):
+    """a divisor that is the size of a collection the peer's traffic fills and drains (it is 0 when the last request leaves), not bounded away from 0"""
+    for r, p in P.root(term, through_params=True):
+        ru = P.unbound(r)
+        if ru[0] != 'call':
+            continue
+        t = P.call_term(ru)
+        if callee_is(t, 'cmp::max', 'Ord::max', 'cmp::Ord::max', 'usize::max', 'u64::max', 'u32::max'):
+            continue
+        if not callee_is(t, 'HashMap::len', 'DelayQueue::len', 'Vec::len', 'VecDeque::len', 'HashSet::len'):
+            continue
+        for rr, pp in P.root(P.args_of(r)[0], through_params=True):
+            if rr[0] == 'param':
+                fp = P.fpath(pp)
+                owner = F.fns[rr[1]].local_ty(rr[2])
+                for (adt, fld) in tables:
+                    if fp and fp[-1] == fld and adt.split('::')[-1] in owner:
+                        return 'divisor is the size of %s.%s, which is 0 whenever the peer\'s traffic has drained it' % (adt.split('::')[-1], fld)
+    return None
 
 
 class Taint:
@@ -154,6 +176,19 @@ def run(ctx):
     R.assumptions = ['the partial-operation table is complete for the std/tokio-util/humantime APIs tarpc uses']
     R.info['configs'] = ['full']
     T = Taint(F, P)
+    # collections whose size follows the peer's traffic: the two in-flight tables and the per-key channel table
+    tables = set()
+    for side in ('client', 'server'):
+        tb = Table(F, side)
+        tables.add((tb.path, tb.map_field))
+        tables.add((tb.path, tb.timer_field))
+    try:
+        kt = F.adt('MaxChannelsPerKey')
+        for fld in kt['variants'][0]['fields']:
+            if ty_head(fld[1])[0].endswith('HashMap'):
+                tables.add(('MaxChannelsPerKey', fld[0]))
+    except CannotDecide:
+        pass
     fns = [f for f in F.fns.values() if not F.is_derived(f)]
     R.count('functions_analysed', len(fns))
     n_partial = 0
@@ -184,6 +219,8 @@ def run(ctx):
                 n_partial += 1
                 whys = [T.tainted(P.operand(f, rv[x], at=i)) for x in ('a', 'b')]
                 why = whys[0] or whys[1]
+                if why is None and rv['op'] in ('Div', 'Rem'):
+                    why = zeroable_divisor(F, P, tables, P.operand(f, rv['b'], at=i))
                 R.ob('C16.arith', (where, 'integer ' + rv['op']), why is None,
                      'integer arithmetic that can trap (%s) has no peer- or caller-controlled operand (ids reach only total operations)' % rv['op'], [f.loc(s)],
                      ('unsanitised: ' + why) if why else None)
